@@ -12,6 +12,9 @@ Signers0 == {[sid |-> sd, sigKey |-> k, sigOver |-> so, attrs |-> sh.attrs, ctat
 (* that are consistently SHA-1 (digest algorithm, message digest, RSA-SHA1 signature by the right key)                                    *)
 HonestBase == {HonestSigner(n, ct, m) : n \in {"A", "B"}, ct \in {"data", "spc"}, m \in {"m1", "m2"}}
 Extra == {[s EXCEPT !.unauth = u] : s \in HonestBase, u \in {"m1", "m2"}} \cup {[s EXCEPT !.alg = "sha1"] : s \in HonestBase}
+         \* the CA-issued certificate: honest signer infos naming its issuer + serial, and the same naming its subject + serial instead
+         \cup {HonestSigner("Ca", ct, m) : ct \in {"data", "spc"}, m \in {"m1", "m2"}}
+         \cup {[HonestSigner("Ca", ct, m) EXCEPT !.sid = "CaSub"] : ct \in {"data", "spc"}, m \in {"m1", "m2"}}
 Signers == Signers0 \cup Extra
 (* signer infos used in two-signer blobs: honest ones, transplanted ones, attacker's own under the twin identity *)
 Pair == {HonestSigner("A", "spc", "m1"), HonestSigner("A", "spc", "m2"), HonestSigner("B", "spc", "m1"), HonestSigner("At", "spc", "m1"),
